@@ -104,6 +104,13 @@ def build_corpus(tier, rng):
     c = Corpus(ID)
     thorough = tier == "thorough"
     cands = [("systematic", it) for it in systematic()]
+    # the same definitions coming out of a macro_rules! expansion, every attribute VALUE (`= false`, `= "x"`) passed in as an `expr` /
+    # `literal` fragment: `ascii_case_insensitive = false` stays false
+    for j, (fam, it) in enumerate(list(cands)):
+        if j % 3 == 0 and not getattr(it, "overlap_family", False):
+            tw = copy.deepcopy(it)
+            tw.via_macro = True
+            cands.append(("via-macro", tw))
     for _ in range(600 if thorough else 60):
         cands.append(("random", G.string_enum(rng, allow_default=False, allow_dw=False, allow_fields=False, custom_err=False)))
     infos = G.classify(ID, [it for _, it in cands])
